@@ -224,6 +224,8 @@ def run(ctx):
     for n in ast.walk(vea):
         if isinstance(n, ast.Assign) and len(n.targets) == 1 and isinstance(n.targets[0], ast.Name):
             defs.setdefault(n.targets[0].id, []).append(n.value)
+    for nm, cond in small.flag_definitions(vea).items():
+        defs[nm] = [cond]
     ok = False
     why = "no `not <flag>` guard dominates the unmasked kernel call"
     for g in guard_names:
